@@ -745,6 +745,23 @@ theorem forest_delete {cs : List Cls} (hf : Forest cs) (n : Name) :
       · exact Or.inr (.trans hdesc hd hch)
     simp [hdn] at hk
 
+theorem addDecl_ok {s s' : State} {d : QDecl} (h : addDecl s d = .ok s') :
+    s' = { s with decls := s.decls ++ [d] } := by
+  unfold addDecl at h
+  split at h
+  · simp at h
+  · injection h with h; exact h.symm
+
+/-- the MOF compiler's connection adds only pre-checks in front of CreateClass -/
+theorem mofCreateClass_ok {s s' : State} {c : Cls} (h : mofCreateClass s c = .ok s') :
+    createClass s c = .ok s' := by
+  unfold mofCreateClass at h
+  split at h
+  · simp at h
+  · cases hd : mofDeps s.classes c with
+    | error e => simp [hd] at h
+    | ok u => simpa [hd] using h
+
 theorem forest_step {s : State} (hf : Forest s.classes) (op : Op) : Forest (step s op).1.classes := by
   cases op with
   | create c =>
@@ -797,6 +814,23 @@ theorem forest_step {s : State} (hf : Forest s.classes) (op : Op) : Forest (step
   | supers n => simp only [step]; split <;> exact hf
   | addInst i => exact hf
   | enumInsts n => simp only [step]; split <;> exact hf
+  | addDecl d =>
+    simp only [step]
+    cases h : addDecl s d with
+    | error e => exact hf
+    | ok s' => rw [addDecl_ok h]; exact hf
+  | mofCreate c =>
+    simp only [step]
+    cases h : mofCreateClass s c with
+    | error e => exact hf
+    | ok s' =>
+      obtain ⟨r, hr, rfl, hfresh⟩ := createClass_ok (mofCreateClass_ok h)
+      obtain ⟨hn, hs, hp⟩ := resolveClass_ok hr
+      refine .snoc hf (by rw [hn]; exact hfresh) ?_
+      intro sn hsn hne
+      rw [hs] at hsn
+      exact hp sn (normSuper_some hsn).1 hne
+  | isSub k sup => simp only [step]; split <;> exact hf
 
 theorem forest_run : ∀ (ops : List Op) {s : State}, Forest s.classes → Forest (run s ops).1.classes
   | [], s, hf => hf
@@ -1421,6 +1455,7 @@ def opWF : Op → Bool
   | .create c => c.props.all wfElem && c.meths.all wfElem
   | .add c => c.props.all wfElem && c.meths.all wfElem
   | .modify c => c.props.all wfElem && c.meths.all wfElem
+  | .mofCreate c => c.props.all wfElem && c.meths.all wfElem
   | _ => true
 
 def OpWF (op : Op) : Prop := opWF op = true
@@ -1474,6 +1509,19 @@ theorem originOK_step {sel : Cls → List Elem}
   | supers n => simp only [step]; split <;> exact hok
   | addInst i => exact hok
   | enumInsts n => simp only [step]; split <;> exact hok
+  | addDecl d =>
+    simp only [step]
+    cases h : addDecl s d with
+    | error e => exact hok
+    | ok s' => rw [addDecl_ok h]; exact hok
+  | mofCreate c =>
+    simp only [step]
+    cases h : mofCreateClass s c with
+    | error e => exact hok
+    | ok s' =>
+      obtain ⟨r, hr, rfl, hfresh⟩ := createClass_ok (mofCreateClass_ok h)
+      exact originOK_append hF hok hr hfresh (fun sup => hsel _ c sup r) (hwfsel c (wf_of_all hwf))
+  | isSub k sup => simp only [step]; split <;> exact hok
 
 theorem originOK_run {sel : Cls → List Elem}
     (hsel : ∀ decls c sup r, resolveParts decls c sup = .ok r →
